@@ -66,6 +66,9 @@ pub enum Op {
     CloneFromInjector { dst: u8, src: u8 },
     /// n restarts in a row without a tick in between (counters that wrap)
     RestartBurst { n: u16, clear: bool },
+    /// the column text (plus a trailing space) is parsed again with stricter settings (Ignore -> Smart ->
+    /// Respect, normalization Smart -> Never) and `append = true`: every new match is an old match
+    ReparseStricter { col: u8 },
 }
 
 #[derive(Clone, Debug, Serialize, Deserialize, Hash)]
@@ -127,6 +130,11 @@ pub fn item_text(sel: u16, col: usize) -> String {
 }
 pub fn replace_text(sel: u16) -> String {
     const P: &[&str] = &["a", "b", "ab", "a b", "!a", "^a", "a$", "'ab", "c", "B", "é", "a\\ b", "!b a", "", "ba", "σ"];
+    // (a second table behind the first so that stored cases keep their meaning)
+    const P2: &[&str] = &["Ab c", "A b", "é a", "aB Ab", "σ b", "^ a b", "! a"];
+    if sel >= 65000 {
+        return P2[(sel - 65000) as usize % P2.len()].to_string();
+    }
     P[sel as usize % P.len()].to_string()
 }
 
@@ -708,6 +716,27 @@ impl<'h> Machine<'h> {
                     let col = *col as usize % self.cols();
                     self.apply_edit(col, edit);
                 }
+                Op::ReparseStricter { col } => {
+                    let col = *col as usize % self.cols();
+                    let (cm, nm) = self.modes[col];
+                    // one dimension at a time: case matching first, then normalization
+                    let stricter = match cm % 3 {
+                        1 => (2, nm % 2),
+                        2 => (0, nm % 2),
+                        _ => (0, 0u8),
+                    };
+                    if stricter != (cm % 3, nm % 2) {
+                        let mut text = self.texts[col].clone();
+                        if !text.ends_with('\\') {
+                            text.push(' ');
+                        }
+                        self.modes[col] = stricter;
+                        self.nuc.as_mut().unwrap().pattern.reparse(col, &text, case_of(stricter.0), norm_of(stricter.1), true);
+                        self.texts[col] = text;
+                        self.had_cancel = true;
+                        self.rep.label("append-with-stricter-settings");
+                    }
+                }
                 Op::ReparseMode { col, case, norm } => {
                     let col = *col as usize % self.cols();
                     self.modes[col] = (*case % 3, *norm % 2);
@@ -1099,6 +1128,7 @@ pub fn op_strategy(bias: Bias) -> BoxedStrategy<Op> {
         8 => any::<u8>().prop_map(|sel| Op::ReleaseWriter { sel }),
         14 => (0u8..3, edit).prop_map(|(col, edit)| Op::Reparse { col, edit }),
         3 => (0u8..3, 0u8..3, 0u8..2).prop_map(|(col, case, norm)| Op::ReparseMode { col, case, norm }),
+        2 => (0u8..3).prop_map(|col| Op::ReparseStricter { col }),
         22 => (0u8..3).prop_map(|timeout| Op::Tick { timeout }),
         w_restart => any::<bool>().prop_map(|clear| Op::Restart { clear }),
         w_inj / 3 + 1 => Just(Op::NewInjector),
@@ -1208,6 +1238,12 @@ pub fn templates() -> Vec<History> {
     // typing behind a word that consists of a marker only ("^ a b" -> "^ a ba")
     for marker in [7u8, 6, 9, 8] {
         v.push(base(1, vec![Op::Bulk { inj: 0, n: 64, text: 11 }, Op::Reparse { col: 0, edit: Edit::Clear }, Op::Reparse { col: 0, edit: Edit::Append(marker) }, Op::Reparse { col: 0, edit: Edit::Append(5) }, Op::Reparse { col: 0, edit: Edit::Append(0) }, Op::Reparse { col: 0, edit: Edit::Append(5) }, Op::Reparse { col: 0, edit: Edit::Append(1) }, Op::Tick { timeout: 2 }, Op::Tick { timeout: 2 }, Op::Reparse { col: 0, edit: Edit::Append(0) }, Op::Tick { timeout: 2 }, Op::Tick { timeout: 2 }]));
+    }
+    // the same two-word text is parsed again with stricter settings as an append
+    for (first, mode) in [(65000u16, (1u8, 1u8)), (65001, (1, 1)), (65002, (2, 1)), (65003, (1, 1)), (65004, (2, 1)), (3, (1, 1))] {
+        let mut h = base(1, vec![Op::Bulk { inj: 0, n: 64, text: 11 }, Op::Bulk { inj: 0, n: 40, text: 3 }, Op::Reparse { col: 0, edit: Edit::Replace(first) }, Op::Tick { timeout: 2 }, Op::Tick { timeout: 2 }, Op::ReparseStricter { col: 0 }, Op::Tick { timeout: 2 }, Op::Tick { timeout: 2 }, Op::ReparseStricter { col: 0 }, Op::Tick { timeout: 2 }, Op::Tick { timeout: 2 }]);
+        h.modes = vec![mode; 3];
+        v.push(h);
     }
     // 255 / 256 / 257 restarts between two ticks
     for n in [255u16, 256, 257] {
